@@ -748,9 +748,9 @@ func run(r *vrt.Run) {
 		workerStarts.Add(1)
 		ctrl.Hook(p)
 	}
-	n := r.N(5000, 150000)
+	n := r.N(5000, 100000)
 	if r.Race() {
-		n = r.N(800, 25000)
+		n = r.N(800, 15000)
 	}
 	vrt.Par(n, 0, func(i int) { runHistory(r, "main", i) })
 
